@@ -25,7 +25,7 @@ TIMEOUT = {'quick': 1500, 'thorough': 3 * 3600}
 RULE = ('R1 cases: (notation, pair of argument tuples). R2 cases: (module, optimize, phase file). distinct_nontrivial = distinct (notation, tuple pair) whose expansions '
         'differ plus distinct module files with at least 5 steps.')
 ASSUMPTIONS = ['arguments in positions the definition does not depend on may legitimately be hidden', 'Instantiate keys are compared up to the documented reversal between the two formats']
-FLOORS = {'quick': {'r1_pairs': 3000, 'r1_pairs_different_expansion': 2000, 'r2_files_compared': 400, 'r2_steps_compared': 10000, 'mprint_calls': 2000,
+FLOORS = {'quick': {'r1_pairs': 3000, 'r1_pairs_different_expansion': 2000, 'r2_files_compared': 400, 'r2_steps_compared': 10000, 'mprint_calls': 2000, 'r1_instantiated_applications': 100,
                     'family:propositional': 500, 'family:definedness': 400, 'family:kore': 1500, 'family:forall': 100, 'family:sorted_exists': 100, 'family:kore_exists': 100, 'family:nary_app': 300}}
 FLOORS['thorough'] = dict(FLOORS['quick'])
 
@@ -54,7 +54,7 @@ def install_mprint():
         out = orig(self, applied, opts)
         try:
             if len(PRINT_LOG) < 200000:
-                args = tuple(applied.inst.values())
+                args = tuple(applied.inst[k] for k in sorted(applied.inst))     # by parameter, not by dict position
                 PRINT_LOG.append((self.label, id(self.definition), tuple(a.pretty(opts) for a in args), tb.show(tb.of_repo(applied)), out))
         except Exception:
             pass
@@ -103,9 +103,27 @@ def r1_workload(ctx, rng):
             v = list(tuples[0])
             v[i] = P.Symbol(f'varied{i}')
             tuples.append(tuple(v))
+        # two positions swapped (a different pattern with the same set of argument renderings)
+        if k >= 2:
+            for t in range(2):
+                v = list(tuples[t])
+                i, j = rng.sample(range(k), 2)
+                v[i], v[j] = v[j], v[i]
+                tuples.append(tuple(v))
         rendered = []
-        for args in tuples:
-            app = N_(*args)
+        apps = [(args, N_(*args), 'direct') for args in tuples]
+        # the same applications reached through instantiate: an open argument (metavariable) in front of closed ones, then filled in
+        if k >= 1:
+            for args in tuples[:4]:
+                i = rng.randrange(k)
+                open_args = list(args)
+                open_args[i] = P.MetaVar(7)
+                try:
+                    apps.append((args, N_(*open_args).instantiate({7: args[i]}), 'instantiated'))
+                    ctx.count('r1_instantiated_applications')
+                except Exception as ex:
+                    ctx.violation('instantiate_raises:' + fam, f'instantiating an application of {N_.label} raised {type(ex).__name__}', {'notation': N_.label, 'error': repr(ex)[:200]})
+        for args, app, how in apps:
             try:
                 s = app.pretty(opts)
             except Exception as ex:
